@@ -151,6 +151,13 @@ def sessions(tier: str, seed: int, kinds=vloop.CLIENTS):
 def bind(chk: Check, tier: str, seed: int):
     wd = workdir("C14")
     logs, meta = sessions(tier, seed)
+    nfz = 0
+    for k in range({"quick": 1, "thorough": 20, "selftest": 0}[tier]):      # random sessions with a close() somewhere
+        fl, fm = c13.fuzz_sessions({"quick": 150, "thorough": 250, "selftest": 0}[tier], seed * 100 + k, with_close=True)
+        logs += fl
+        meta += [(m[0], "close", "fuzz", m[3], m[1]) for m in fm]
+        nfz += len(fl)
+    chk.add(random_sessions=nfz)
     c13.judge(chk, wd, logs, meta, "C14", "c14")
     c13.conformance(chk, wd, c13.CONF if tier != "selftest" else [], "c14")
     closed = sum(1 for lg in logs if any(e["e"] == "RetClose" for e in lg))
